@@ -302,7 +302,17 @@ def gen_wrap_job(ch, jid, label):
                 d = "ABSENT"
         params.append({"name": nme, "typ": typ, "doc": doc, "default": d})
     summary = prose(label + ".sum", *ch.choice(label + ".sumsize", [(3, 5), (10, 16), (30, 50)])).capitalize() + "."
-    return {"id": jid, "kind": "wrap", "desc": {"doc": summary, "params": params, "returns": None, "kwargs": None}}
+    returns = None
+    if ch.chance(label + ".ret", 0.35):
+        # a return entry: short and long types (the argparse emitter nests them in Tuple[ArgumentParser, ...]), short and long prose
+        rsize = ch.choice(label + ".ret.size", ["short", "short", "medium", "long"])
+        returns = {"typ": ch.choice(label + ".ret.typ", ["int", "List[int]", "Dict[str, int]", "Tuple[np.ndarray, np.ndarray]", "Optional[Literal['alpha', 'beta', 'gamma', 'delta']]",
+                                                        "tf.keras.optimizers.schedules.LearningRateSchedule"]),
+                   "doc": prose(label + ".ret.doc", *{"short": (2, 4), "medium": (8, 14), "long": (25, 45)}[rsize])}
+        # (the argparse route only has a return entry when the function returns a pair: a default, as quoted source text)
+        returns["default"] = {"int": "```0```", "List[int]": "```[1, 2]```", "Dict[str, int]": "```{'a': 1}```",
+                              "Tuple[np.ndarray, np.ndarray]": "```(np.empty(0), np.empty(0))```"}.get(returns["typ"], "```None```") if ch.chance(label + ".ret.def", 0.7) else None
+    return {"id": jid, "kind": "wrap", "desc": {"doc": summary, "params": params, "returns": returns, "kwargs": None}}
 
 
 def gen_corpus(seed, prop, n):
@@ -819,7 +829,12 @@ class Replica(object):
                 elif p["default"] is not None:
                     e["default"] = p["default"]["v"] if p["default"]["v"] is not None else "```None```"
                 params[p["name"]] = e
-            return {"name": "f", "type": "static", "doc": desc["doc"], "params": params, "returns": None}
+            returns = None
+            if desc.get("returns"):
+                returns = OrderedDict((("return_type", OrderedDict((("doc", desc["returns"]["doc"]), ("typ", desc["returns"]["typ"])))),))
+                if desc["returns"].get("default") is not None:
+                    returns["return_type"]["default"] = desc["returns"]["default"]
+            return {"name": "f", "type": "static", "doc": desc["doc"], "params": params, "returns": returns}
 
         emitters = {
             "rest": (lambda ww: ns.emit.docstring(mk_ir(), docstring_format="rest", word_wrap=ww), ns.parse.docstring),
@@ -864,6 +879,10 @@ class Replica(object):
             if res[True][0] == "ok" and res[False][0] == "ok":
                 a, b = res[True][1], res[False][1]
                 pa, pb = _params_of(a), _params_of(b)
+                if desc.get("returns"):
+                    # the return entry is compared like a parameter (W2 / W3 / W4 with entry="return")
+                    pa = pa + [("<return>", ((a.get("returns") or {}).get("return_type") or {"doc": "<no return entry>"}))]
+                    pb = pb + [("<return>", ((b.get("returns") or {}).get("return_type") or {"doc": "<no return entry>"}))]
                 if [n for n, _ in pa] != [n for n, _ in pb]:
                     self.add_violation("C18", job, "W1-names", "%s width %s: wrapped parses to parameters %r, unwrapped to %r" % (kind, ll, [n for n, _ in pa], [n for n, _ in pb]),
                                        {"kind": kind})
@@ -872,12 +891,12 @@ class Replica(object):
                     if _ws(x.get("typ")) != _ws(y.get("typ")):
                         head = lambda t: (t or "none").split("[")[0]
                         self.add_violation("C18", job, "W2-type", "%s width %s: %s type %r (wrapped) vs %r" % (kind, ll, n, x.get("typ"), y.get("typ")),
-                                           {"kind": kind, "tchange": "%s->%s" % (head(x.get("typ")), head(y.get("typ")))})
+                                           {"kind": kind, "tchange": "%s->%s" % (head(x.get("typ")), head(y.get("typ"))), "entry": "return" if n == "<return>" else None})
                     if x.get("default") != y.get("default") or type(x.get("default")) is not type(y.get("default")):
                         self.add_violation("C18", job, "W3-default", "%s width %s: %s default %r (wrapped) vs %r" % (kind, ll, n, x.get("default"), y.get("default")),
-                                           {"kind": kind, "dchange": "%s->%s" % (type(x.get("default")).__name__, type(y.get("default")).__name__)})
+                                           {"kind": kind, "dchange": "%s->%s" % (type(x.get("default")).__name__, type(y.get("default")).__name__), "entry": "return" if n == "<return>" else None})
                     elif _norm_prose(x.get("doc")) != _norm_prose(y.get("doc")):
-                        self.add_violation("C18", job, "W4-prose", "%s width %s: %s prose %r (wrapped) vs %r" % (kind, ll, n, x.get("doc"), y.get("doc")), {"kind": kind})
+                        self.add_violation("C18", job, "W4-prose", "%s width %s: %s prose %r (wrapped) vs %r" % (kind, ll, n, x.get("doc"), y.get("doc")), {"kind": kind, "entry": "return" if n == "<return>" else None})
                 if _norm_prose(a.get("doc")) != _norm_prose(b.get("doc")):
                     self.add_violation("C18", job, "W5-summary", "%s width %s: summary %r (wrapped) vs %r" % (kind, ll, a.get("doc"), b.get("doc")), {"kind": kind})
         return summary
